@@ -121,6 +121,22 @@ func suiteC10(s *Suite, rng *Rng, tier string) {
 		}
 		if out.(L)[0] == 2 {
 			s.Violate("C10:update-verify-panicked", "Update.Verify panicked: "+kind, L{kind, in})
+			return
+		}
+		// the same object verified a second time: what the first call left behind (cached accumulator, flags) must not
+		// change the verdict
+		var acc2 *revocation.Accumulator
+		out2, ok2 := outcomeOf(func() error {
+			var err error
+			acc2, err = u.Verify(kp.Pk)
+			return err
+		})
+		if ok2 {
+			out2 = okV(dumpAcc(acc2))
+		}
+		s.Add(1003, "verify-again:"+kind, false, in, out2)
+		if ok2 != ok {
+			s.Violate("C10:second-verification-differs", fmt.Sprintf("Update.Verify on the same object: first call ok=%v, second call ok=%v (%s)", ok, ok2, kind), L{kind, in})
 		}
 	}
 
